@@ -257,8 +257,8 @@ def _records_value(node_ast: ast.AST, aliases: set[str]) -> bool:
     for n in walk_no_nested(node_ast):
         if isinstance(n, ast.Attribute) and n.attr == "value":
             v = n.value
-            if (isinstance(v, ast.Call) and ast.unparse(v) == "self.current()") or (isinstance(v, ast.Name) and v.id in aliases):
-                return True
+            if (isinstance(v, ast.Call) and ast.unparse(v) in ("self.current()", "self.advance()")) or (isinstance(v, ast.Name) and v.id in aliases):
+                return True  # advance() returns the token it has just consumed
     return False
 
 
@@ -418,7 +418,7 @@ def check(run: Run) -> None:
     check_comments(run, pmodel)
     check_value_dispatch(run)
     run.rule("R02.5", "escape-on-read is the inverse of escape-on-write: the lexer's STRING decoder undoes exactly the emitter's escape chain, on every character", 2)
-    run.rule("R02.5b", "all copies of the emitter's escape chain are identical", 2)
+    run.rule("R02.5b", "all copies of the emitter's escape chain are identical", 1)
     c04.check_escape_inverse(run, "R02.5", "R02.5b")
     check_child_loops(run)
     from . import c05
